@@ -78,7 +78,18 @@ func verifAfterRestart(strict bool) *store.CAStore {
 		if merr != nil {
 			// getMetaInfo regenerates on not-exist and answers 500 on anything else
 			verif.Assert("metainfo-absent-or-valid", os.IsNotExist(merr))
-			continue
+			// "absent (and regenerated on demand)": the on-demand path of the
+			// origin is a backend refresh of the blob, i.e.
+			// WriteBlobToCacheWithMetaInfo of the same bytes over the cached
+			// blob; after it succeeds the metainfo must be there.
+			verif.Reach("metainfo-regenerated-on-demand")
+			rerr := cas.WriteBlobToCacheWithMetaInfo(name, uint64(len(b)), func(w store.FileReadWriter) error {
+				_, err := w.Write(b)
+				return err
+			}, 1)
+			verif.Assert("on-demand-refresh-succeeds", rerr == nil)
+			merr = cas.GetCacheFileMetadata(name, &tm)
+			verif.Assert("metainfo-present-after-on-demand-refresh", merr == nil)
 		}
 		mi := tm.MetaInfo
 		verif.Assert("metainfo-names-blob", mi.Digest().Hex() == name)
@@ -119,6 +130,19 @@ func verifScenario(which int) {
 		g, err := New(Config{PieceLengths: map[datasize.ByteSize]datasize.ByteSize{0: 1}}, cas)
 		verif.Assert("generator", err == nil)
 		verif.Assert("generate", g.Generate(d) == nil)
+	case 2:
+		// client upload whose bytes do not hash to the claimed digest
+		uid := "u2"
+		verif.Assert("create-upload", cas.CreateUploadFile(uid, 0) == nil)
+		w, err := cas.GetUploadFileReadWriter(uid)
+		verif.Assert("open-upload", err == nil)
+		_, err = w.Write([]byte("zz"))
+		verif.Assert("write-upload", err == nil)
+		w.Close()
+		verif.Assert("mismatching-commit-rejected", cas.MoveUploadFileToCache(uid, d.Hex()) != nil)
+		_, serr := cas.GetCacheFileStat(d.Hex())
+		verif.Assert("nothing-cached-after-rejected-commit", os.IsNotExist(serr))
+		return
 	case 1:
 		err := cas.WriteBlobToCacheWithMetaInfo(d.Hex(), uint64(len(verifBlob)), func(w store.FileReadWriter) error {
 			_, err := w.Write(verifBlob)
@@ -138,6 +162,9 @@ func verifCrashRun(which int, strict bool) {
 	verif.Cover("crashed", crashed)
 	verif.Cover("completed", !crashed)
 	cas := verifAfterRestart(strict)
+	if which == 2 {
+		return
+	}
 	if done {
 		_, err := cas.GetCacheFileStat(verifDigest().Hex())
 		verif.Assert("completed-blob-still-cached", err == nil)
@@ -180,3 +207,8 @@ func VerifFindingCrashDuringMetainfoRewrite() {
 	_, err := cas.GetCacheFileStat(verifDigest().Hex())
 	verif.Assert("blob-still-cached", err == nil)
 }
+
+// VerifCrashDuringMismatchingCommit: crash at any file-system step of the
+// commit of an upload whose bytes do not hash to the claimed digest, then
+// restart: no blob that does not hash to its name survives in the cache.
+func VerifCrashDuringMismatchingCommit() { verifCrashRun(2, true) }
